@@ -892,11 +892,6 @@ func nontrivial(sc scenario) bool {
 	return countOps(sc, "relr")+countOps(sc, "relc") >= 2 || countOps(sc, "close") > 0 || sc.Grace >= 0
 }
 
-func runMC(e *ev.Evidence, cfg string, timeout time.Duration) tlc.Result {
-	return tlc.Run(tlc.Opts{Dir: "Managers", Module: "CloserMgr", Config: cfg, Workers: 12, Timeout: timeout, HeapMB: 12000,
-		Args: []string{"-noGenerateSpecTE"}})
-}
-
 func TestCheck(t *testing.T) {
 	e := ev.New("C12", "model_checking")
 	defer func() {
@@ -908,14 +903,20 @@ func TestCheck(t *testing.T) {
 
 	// 1. model checking runs in the background while the real code is driven
 	var wg sync.WaitGroup
-	var mc tlc.Result
+	// quick: one small configuration; thorough: three larger ones (3 runners x 2 closers; all result classes on
+	// 2 x 1; 1 runner x 3 closers), side by side
+	mcCfgs := ev.Pick([]string{"MC_small.cfg"}, []string{"MC_big.cfg", "MC_big_classes.cfg", "MC_big_closers.cfg"})
+	mcs := make([]tlc.Result, len(mcCfgs))
 	defects := []string{"MC_defect_addcloser.cfg", "MC_defect_errsearly.cfg", "MC_defect_releaselate.cfg", "MC_defect_filterctxerr.cfg"}
 	dres := make([]tlc.Result, len(defects))
-	wg.Add(1)
-	go func() {
-		defer wg.Done()
-		mc = runMC(e, ev.Pick("MC_small.cfg", "MC_big.cfg"), ev.Pick(5*time.Minute, 45*time.Minute))
-	}()
+	for i := range mcCfgs {
+		wg.Add(1)
+		go func() {
+			defer wg.Done()
+			mcs[i] = tlc.Run(tlc.Opts{Dir: "Managers", Module: "CloserMgr", Config: mcCfgs[i], Workers: ev.Pick(12, 6),
+				Timeout: ev.Pick(5*time.Minute, 45*time.Minute), HeapMB: ev.Pick(8000, 7000), Args: []string{"-noGenerateSpecTE"}})
+		}()
+	}
 	for i := range defects {
 		wg.Add(1)
 		go func() {
@@ -955,6 +956,18 @@ func TestCheck(t *testing.T) {
 	}
 	fmt.Printf("drove %d scenarios on the real code in %s (%d left goroutines blocked in the library)\n", len(scs), time.Since(t0).Round(time.Millisecond), dead)
 	e.Set("evaluations", int64(len(scs)))
+	byTag := map[string]int{}
+	for _, sc := range scs {
+		byTag["kind="+sc.Kind]++
+		for _, tg := range sc.Tags {
+			byTag[tg]++
+		}
+	}
+	e.Set("scenarios_by_dimension", byTag)
+	e.Assume("time is the virtual clock of a testing/synctest bubble; quiescence (event q) is synctest.Wait: every goroutine of the scenario is durably blocked",
+		"an AddCloser issued while the closers run is executed without an intermediate quiescence point, because a goroutine waiting on the manager's sync.Mutex keeps a bubble from becoming idle; AddCloser racing the start of the closers is staged with the verif hook addcloser.afterCheck",
+		"Add racing the start of Run (unsynchronised access to the runner slice) is not staged; closers always return eventually",
+		"the fatal-shutdown action is replaced by a recording function (WithFatalShutdown), so the behaviour after it fired is observed instead of the process exiting")
 	e.Set("scenarios_with_goroutines_left_blocked", int64(dead))
 	e.Set("rule", "every case = one scripted life of a manager: (plain or closer manager; 0..N runners each returning nil | an error | an error wrapping DeadlineExceeded | context.Canceled | an error wrapping Canceled | ctx.Err(); 0..N closers of the types io.Closer / func(context.Context) error / func() error / func() each returning nil | an error | an error wrapping Canceled; the order in which the harness lets the runners and the closers return; what ends the run: a runner returning, Close, cancellation or deadline of the parent context; where Close is called: never, before Run (once / three times), racing the start of Run (either call issued first), twice concurrently during the run, after the first runner returned, while the closers run, after Run returned (once / three times); grace period unset | closers well within | closers exceed it | probed 1ms before and 1ms after | a closer returning at the very instant; AddCloser: during the run, mixed with an unsupported value, while the closers run, after Run returned, stopped between its closing check and the lock until the closers finished / ran; unsupported closer type, second Run, Add after Run). Exhaustive over result assignments x completion orders for the plain manager (<=3 runners, 4 in thorough) and for the closer manager (<=2x2, 3x3 in thorough), exhaustive over Close placement x grace mode x AddCloser mode x completion orders (<=2x2, 3x3 thorough), seeded-random above. The harness steps one action at a time and records a quiescence event (synctest.Wait) after each; non-trivial = at least two parties released, or a Close call, or a grace period; distinct by the full scenario")
 	for _, i := range []int{len(scs) / 7, len(scs) / 2, len(scs) - 3} {
@@ -992,13 +1005,20 @@ func TestCheck(t *testing.T) {
 
 	// 5. model checking results
 	wg.Wait()
-	fmt.Printf("MC CloserMgr: ok=%v generated=%d distinct=%d depth=%d wall=%s %s\n", mc.OK, mc.Generated, mc.Distinct, mc.Depth, mc.Wall.Round(time.Millisecond), mc.What)
-	if !mc.OK {
-		e.Inconclusive("model check of CloserMgr did not pass: " + mc.What + "\n" + mc.Tail(3000))
+	var states, trans int64
+	var cmds []string
+	for i, mc := range mcs {
+		fmt.Printf("MC CloserMgr %s: ok=%v generated=%d distinct=%d depth=%d wall=%s %s\n", mcCfgs[i], mc.OK, mc.Generated, mc.Distinct, mc.Depth, mc.Wall.Round(time.Millisecond), mc.What)
+		if !mc.OK {
+			e.Inconclusive("model check of CloserMgr (" + mcCfgs[i] + ") did not pass: " + mc.What + "\n" + mc.Tail(3000))
+		}
+		states += mc.Distinct
+		trans += mc.Generated
+		cmds = append(cmds, mc.Cmd)
 	}
-	e.Set("states", mc.Distinct)
-	e.Set("transitions", mc.Generated)
-	e.Set("checker_cmd", mc.Cmd)
+	e.Set("states", states)
+	e.Set("transitions", trans)
+	e.Set("checker_cmd", strings.Join(cmds, " ; "))
 	det := tv.M{}
 	for i, d := range defects {
 		det[d] = dres[i].Violation
